@@ -195,6 +195,9 @@ type Iface struct {
 	// "Use(x <qual>.Thing) error" with import of XRefPath.
 	XRefPath string
 	XRefQual string
+	// Twin, when set, adds a method whose single parameter type mentions two different packages
+	// that share one package name: "Pair(m map[tw0.Thing]tw1.Thing) (tw1.Thing, error)".
+	Twin [2]string
 }
 
 type SrcFile struct {
@@ -222,6 +225,8 @@ type Project struct {
 	GoModText  string // overrides the default go.mod text when non-empty
 	// Env holds MOCKERY_* settings that belong to the world's (fixed) environment.
 	Env map[string]string
+	// Links are symbolic links (path → target)
+	Links map[string]string
 }
 
 func (p *Pkg) ImportPath(module string) string {
@@ -247,6 +252,10 @@ func renderFile(pkgName string, f SrcFile) string {
 		if ifc.XRefPath != "" {
 			imps[fmt.Sprintf("%s %q", ifc.XRefQual, ifc.XRefPath)] = true
 		}
+		if ifc.Twin[0] != "" {
+			imps[fmt.Sprintf("tw0 %q", ifc.Twin[0])] = true
+			imps[fmt.Sprintf("tw1 %q", ifc.Twin[1])] = true
+		}
 	}
 	if len(imps) > 0 {
 		var l []string
@@ -267,6 +276,9 @@ func renderFile(pkgName string, f SrcFile) string {
 		}
 		if ifc.XRefPath != "" {
 			fmt.Fprintf(&b, "\tUse(x %s.Thing) error\n", ifc.XRefQual)
+		}
+		if ifc.Twin[0] != "" {
+			b.WriteString("\tPair(m map[tw0.Thing]tw1.Thing) (tw1.Thing, error)\n")
 		}
 		b.WriteString("}\n\n")
 	}
@@ -306,6 +318,12 @@ func (p *Project) Tree() Tree {
 		t.Files[k] = v
 	}
 	t.Dirs = append(t.Dirs, p.Dirs...)
+	for k, v := range p.Links {
+		if t.Links == nil {
+			t.Links = map[string]string{}
+		}
+		t.Links[k] = v
+	}
 	return t
 }
 
